@@ -69,7 +69,7 @@ fn worker(args: &[String]) -> i32 {
         return teardown_worker(args, seed, wid, cases, out, &known);
     }
     if variant == "flushrace" {
-        return flushrace_worker(seed, wid, cases, out, &known);
+        return flushrace_worker(prop, seed, wid, cases, out, &known);
     }
     let spec = match props::spec(prop, variant, cancelable, thorough) {
         Some(s) => s,
@@ -172,7 +172,9 @@ fn worker(args: &[String]) -> i32 {
     0
 }
 
-fn flushrace_worker(seed: u64, wid: u64, cases: u32, out: &str, known: &[String]) -> i32 {
+fn flushrace_worker(prop: &str, seed: u64, wid: u64, cases: u32, out: &str, known: &[String]) -> i32 {
+    // C01 looks at delivery by flush(), C07 at tracing calls blocking on the collector
+    let want_blocked = prop == "C07";
     quiet_panics();
     flushrace::install();
     let strategy = flushrace::strategy();
@@ -180,12 +182,26 @@ fn flushrace_worker(seed: u64, wid: u64, cases: u32, out: &str, known: &[String]
     let mut runner = TestRunner::new_with_rng(cfg, TestRng::from_seed(RngAlgorithm::ChaCha, &seed_bytes(seed, wid, "flushrace")));
     let start = std::time::Instant::now();
     let st = std::cell::RefCell::new((0u64, HashSet::<u64>::new(), Vec::<serde_json::Value>::new(), false, 0u64));
-    let sig = "flush-overlap:not-delivered-by-flush".to_string();
+    let sig = if want_blocked { "blocked-on-collector:first-call-during-report".to_string() } else { "flush-overlap:not-delivered-by-flush".to_string() };
     let res = runner.run(&strategy, |c| {
         let r = flushrace::run(&c);
         let mut s = st.borrow_mut();
         let fails = match r {
-            Ok(f) => f,
+            Ok(f) => {
+                let mut f: Vec<String> = f.into_iter().filter(|m| m.starts_with("BLOCKED") == want_blocked).collect();
+                if want_blocked && !f.is_empty() {
+                    // a time-out is only believed when it reproduces three times out of three
+                    for _ in 0..2 {
+                        let again: Vec<String> = flushrace::run(&c).unwrap_or_default().into_iter().filter(|m| m.starts_with("BLOCKED")).collect();
+                        if again.is_empty() {
+                            f.clear();
+                            s.4 += 1;
+                            break;
+                        }
+                    }
+                }
+                f
+            }
             Err(_) => {
                 s.4 += 1;
                 vec![]
@@ -210,13 +226,13 @@ fn flushrace_worker(seed: u64, wid: u64, cases: u32, out: &str, known: &[String]
     let s = st.into_inner();
     let mut failure = serde_json::Value::Null;
     if let Err(TestError::Fail(reason, c)) = &res {
-        let fails = flushrace::run(c).unwrap_or_default();
+        let fails: Vec<String> = flushrace::run(c).unwrap_or_default().into_iter().filter(|m| m.starts_with("BLOCKED") == want_blocked).collect();
         failure = json!({"signature": reason.to_string(), "program": c, "violations": fails.iter().map(|f| json!({"sig": sig, "msg": f})).collect::<Vec<_>>()});
     }
     let mut nt: Vec<u64> = s.1.iter().cloned().collect();
     nt.sort();
     let res = json!({
-        "property": "C01", "variant": "flushrace", "cancelable": false, "seed": seed, "worker": wid,
+        "property": prop, "variant": "flushrace", "cancelable": false, "seed": seed, "worker": wid,
         "evaluations": s.0, "nontrivial_hashes": nt.iter().map(|h| format!("{:016x}", h)).collect::<Vec<_>>(),
         "labels": {"overlapping_flush_case": s.0, "overlap_setup_failed": s.4}, "excluded": {}, "known_hits": {}, "samples": s.2,
         "records_delivered": 0, "ops_executed": 0, "ops_skipped": 0, "failure": failure,
@@ -302,14 +318,16 @@ fn replay(args: &[String]) -> i32 {
         flushrace::install();
         let c: flushrace::FrCase = serde_json::from_value(v["program"].clone()).expect("flushrace case");
         // schedule-dependent towards missing only: try a few times
+        let want_blocked = v["property"].as_str() == Some("C07");
+        let sig = if want_blocked { "blocked-on-collector:first-call-during-report" } else { "flush-overlap:not-delivered-by-flush" };
         let mut fails = vec![];
         for _ in 0..5 {
-            fails = flushrace::run(&c).unwrap_or_default();
+            fails = flushrace::run(&c).unwrap_or_default().into_iter().filter(|m| m.starts_with("BLOCKED") == want_blocked).collect::<Vec<_>>();
             if !fails.is_empty() {
                 break;
             }
         }
-        println!("{}", serde_json::to_string_pretty(&json!({"violations": fails.iter().map(|f| json!({"sig": "flush-overlap:not-delivered-by-flush", "msg": f})).collect::<Vec<_>>(), "narrative": []})).unwrap());
+        println!("{}", serde_json::to_string_pretty(&json!({"violations": fails.iter().map(|f| json!({"sig": sig, "msg": f})).collect::<Vec<_>>(), "narrative": []})).unwrap());
         return if fails.is_empty() { 0 } else { 1 };
     }
     if v["variant"].as_str() == Some("teardown") {
